@@ -163,10 +163,14 @@ def viaBuilder (directed : Bool) (kindTok dir target : String) : String × Strin
     -- variants 12..23: the opposite priority is set first (the last call wins)
     let twice := n / 12 % 2 == 1
     let steps : List (BStep Nat) := order.flatMap fun s =>
-      if s == "T" then (if dir == "tr" then [.transpose] else [])
+      -- variants with bit 24: `transpose()` is called twice (it sets the direction, it does not toggle it);
+      -- with bit 48: another target is set first (the last call wins)
+      if s == "T" then (if dir == "tr" then (if n / 24 % 2 == 1 then [.transpose, .transpose] else [.transpose]) else [])
       else if s == "P" then
         (if kind == "pfs-max" then (if twice then [.min, .max] else [.max]) else (if twice then [.max, .min] else [.min]))
-      else ((target.toNat?).map .target).toList
+      else match target.toNat? with
+        | some t => if n / 48 % 2 == 1 then [.target (t + 1), .target t] else [.target t]
+        | none => []
     let c := BCfg.build steps
     let kind' := if pfs then (if c.max then "pfs-max" else "pfs-min") else kind
     let dir' := if c.tr then "tr" else (if dir == "tr" then "fwd" else dir)
